@@ -1310,6 +1310,11 @@ def _layer_index_precond(ctx, rid) -> List[Ob]:
     return r_index_preconditions(ctx, rid)
 
 
+def _layer_kernel_args(ctx, rid, mods=None) -> List[Ob]:
+    from .rules_pairvalues import r_kernel_arguments
+    return r_kernel_arguments(ctx, rid, mods)
+
+
 def _layer_pair_values(ctx, rid) -> List[Ob]:
     from .rules_pairvalues import r_pair_value_providers
     return r_pair_value_providers(ctx, rid)
@@ -1359,6 +1364,10 @@ _CHAIN_TXT = {
     'merge_idiom': ("{rid} (=R01.1/R02.1/R03.1) the cursor-merge idiom of every kernel (lemma L1: the loop bound is the number of "
                     "spikes of both trains as given - no spike is set aside in front of the loop -, strict three-way comparison, "
                     "exclusive guards, single increments): a kernel that drops or doubles an event at one edge breaks the mirror image."),
+    'kernel_args': ("{rid} every kernel call of the measure modules receives the trains' own spike arrays (`<train>.spikes` / "
+                    "`<train>.get_spikes_non_empty()`) and edges (`<train>.t_start`, `<train>.t_end`), possibly through a local bound once "
+                    "to exactly that: nothing is selected, sliced, windowed or re-framed between the (reconciled) train and the kernel - "
+                    "the kernels' edge rules are written for all spikes of a train on its own interval."),
     'pair_values': ("{rid} the private providers of the pooled pair (summed profile values, summed multiplicities) of SPIKE-Sync and "
                     "spike train order return that pair as the kernel / the bivariate profile's integral computed it on every path: the "
                     "multivariate scalar is the ratio of the totals of exactly these pairs (a substituted pair such as (1, 1) for a silent "
@@ -1375,7 +1384,8 @@ _CHAINS = {
             ('R01.15', 'typestates', lambda c: _layer_typestates(c, (_ISI,), 'R01.15')),
             ('R01.16', 'profile_ctor', lambda c: _layer_profile_ctor(c, 'R01.16', (_ISI,))),
             ('R01.17', 'isi_lengths', lambda c: _layer_isi_lengths(c, 'R01.17')),
-            ('R01.18', 'class_ops', lambda c: _layer_class_ops(c, 'R01.18'))],
+            ('R01.18', 'class_ops', lambda c: _layer_class_ops(c, 'R01.18')),
+            ('R01.19', 'kernel_args', lambda c: _layer_kernel_args(c, 'R01.19', (_ISI,)))],
     'C02': [('R02.11', 'plumbing', lambda c: _plumbing(c, (_SPK,), 'R02.11')),
             ('R02.12', 'aux', lambda c: _nonempty_aux(c, 'R02.12')),
             ('R02.13', 'avrg', lambda c: _class_averages(c, 'R02.13', ('PieceWiseLinFunc',))),
@@ -1384,7 +1394,8 @@ _CHAINS = {
             ('R02.16', 'typestates', lambda c: _layer_typestates(c, (_SPK,), 'R02.16')),
             ('R02.17', 'profile_ctor', lambda c: _layer_profile_ctor(c, 'R02.17', (_SPK,))),
             ('R02.18', 'isi_lengths', lambda c: _layer_isi_lengths(c, 'R02.18')),
-            ('R02.19', 'class_ops', lambda c: _layer_class_ops(c, 'R02.19'))],
+            ('R02.19', 'class_ops', lambda c: _layer_class_ops(c, 'R02.19')),
+            ('R02.20', 'kernel_args', lambda c: _layer_kernel_args(c, 'R02.20', (_SPK,)))],
     'C03': [('R03.10', 'plumbing', lambda c: _plumbing(c, (_SYN,), 'R03.10')),
             ('R03.11', 'avrg', lambda c: _class_averages(c, 'R03.11', ('DiscreteFunc',))),
             ('R03.12', 'reconcile', lambda c: _layer_reconcile(c, (_SYN,), 'R03.12')),
@@ -1394,7 +1405,8 @@ _CHAINS = {
             ('R03.16', 'profile_ctor', lambda c: _layer_profile_ctor(c, 'R03.16', (_SYN,))),
             ('R03.17', 'index_precond', lambda c: _layer_index_precond(c, 'R03.17')),
             ('R03.18', 'isi_lengths', lambda c: _layer_isi_lengths(c, 'R03.18')),
-            ('R03.19', 'class_ops', lambda c: _layer_class_ops(c, 'R03.19'))],
+            ('R03.19', 'class_ops', lambda c: _layer_class_ops(c, 'R03.19')),
+            ('R03.20', 'kernel_args', lambda c: _layer_kernel_args(c, 'R03.20', (_SYN,)))],
     'C04': [('R04.10', 'plumbing', lambda c: _plumbing(c, (_DIR,), 'R04.10')),
             ('R04.11', 'avrg', lambda c: _class_averages(c, 'R04.11', ('DiscreteFunc',))),
             ('R04.12', 'reconcile', lambda c: _layer_reconcile(c, (_DIR,), 'R04.12')),
@@ -1404,7 +1416,8 @@ _CHAINS = {
             ('R04.16', 'profile_ctor', lambda c: _layer_profile_ctor(c, 'R04.16', (_DIR,))),
             ('R04.17', 'index_precond', lambda c: _layer_index_precond(c, 'R04.17')),
             ('R04.18', 'isi_lengths', lambda c: _layer_isi_lengths(c, 'R04.18')),
-            ('R04.19', 'pair_values', lambda c: _layer_pair_values(c, 'R04.19'))],
+            ('R04.19', 'pair_values', lambda c: _layer_pair_values(c, 'R04.19')),
+            ('R04.20', 'kernel_args', lambda c: _layer_kernel_args(c, 'R04.20', (_DIR,)))],
     'C05': [('R05.10', 'class_ops', lambda c: _layer_class_ops(c, 'R05.10')),
             ('R05.11', 'reconcile', lambda c: _layer_reconcile(c, (_ISI, _SPK, _SYN, _DIR), 'R05.11')),
             ('R05.12', 'plumbing', lambda c: _plumbing(c, (_ISI, _SPK, _SYN, _DIR), 'R05.12')),
@@ -1425,7 +1438,8 @@ _CHAINS = {
             ('R07.12', 'discrete_defs', lambda c: _layer_discrete_defs(c, 'R07.12')),
             ('R07.13', 'profile_ctor', lambda c: _layer_profile_ctor(c, 'R07.13')),
             ('R07.14', 'isi_lengths', lambda c: _layer_isi_lengths(c, 'R07.14')),
-            ('R07.15', 'class_ops', lambda c: _layer_class_ops(c, 'R07.15'))],
+            ('R07.15', 'class_ops', lambda c: _layer_class_ops(c, 'R07.15')),
+            ('R07.16', 'kernel_args', lambda c: _layer_kernel_args(c, 'R07.16', (_ISI, _SPK, _SYN)))],
     'C15': [('R15.8', 'reconcile', lambda c: _layer_reconcile(c, (_ISI, _SPK, _SYN, _DIR), 'R15.8')),
             ('R15.9', 'plumbing', lambda c: _plumbing(c, (_ISI, _SPK, _SYN, _DIR), 'R15.9')),
             ('R15.10', 'typestates', lambda c: _layer_typestates(c, (_ISI, _SPK, _SYN, _DIR), 'R15.10')),
@@ -1441,7 +1455,8 @@ _CHAINS = {
             ('R08.14', 'profile_ctor', lambda c: _layer_profile_ctor(c, 'R08.14')),
             ('R08.15', 'index_precond', lambda c: _layer_index_precond(c, 'R08.15')),
             ('R08.16', 'defaults', lambda c: _layer_defaults(c, 'R08.16')),
-            ('R08.17', 'merge_idiom', lambda c: merge_idiom_obs(c, [f for f in eng(c).families if not f.wrapper.cls], 'R08.17'))],
+            ('R08.17', 'merge_idiom', lambda c: merge_idiom_obs(c, [f for f in eng(c).families if not f.wrapper.cls], 'R08.17')),
+            ('R08.18', 'kernel_args', lambda c: _layer_kernel_args(c, 'R08.18', (_ISI, _SPK, _SYN, _DIR)))],
     'C09': [('R09.12', 'avrg', lambda c: _class_averages(c, 'R09.12', ('PieceWiseConstFunc', 'PieceWiseLinFunc')))],
     'C11': [('R11.10', 'avrg', lambda c: _class_averages(c, 'R11.10', ('DiscreteFunc',)))],
     'C10': [('R10.7', 'ownership', lambda c: r09_2_ownership(c, 'R10.7', {'PieceWiseConstFunc', 'PieceWiseLinFunc'}))],
@@ -1453,7 +1468,8 @@ _CHAINS = {
             ('R12.13', 'index_precond', lambda c: _layer_index_precond(c, 'R12.13')),
             ('R12.14', 'isi_lengths', lambda c: _layer_isi_lengths(c, 'R12.14')),
             ('R12.15', 'class_ops', lambda c: _layer_class_ops(c, 'R12.15')),
-            ('R12.16', 'reconcile', lambda c: _layer_reconcile(c, (_ISI, _SPK, _SYN, _DIR), 'R12.16'))],
+            ('R12.16', 'reconcile', lambda c: _layer_reconcile(c, (_ISI, _SPK, _SYN, _DIR), 'R12.16')),
+            ('R12.17', 'kernel_args', lambda c: _layer_kernel_args(c, 'R12.17', (_ISI, _SPK, _SYN, _DIR)))],
     'C14': [('R14.8', 'defaults', lambda c: _layer_defaults(c, 'R14.8')),
             ('R14.9', 'reconcile', lambda c: _layer_reconcile(c, (_ISI, _SPK, _SYN, _DIR), 'R14.9')),
             ('R14.10', 'typestates', lambda c: _layer_typestates(c, (_ISI, _SPK, _SYN, _DIR), 'R14.10')),
@@ -1480,7 +1496,8 @@ _CHAINS = {
             ('R18.14', 'add_kernels', lambda c: _layer_add_kernels(c, 'R18.14')),
             ('R18.15', 'index_precond', lambda c: _layer_index_precond(c, 'R18.15')),
             ('R18.16', 'profile_ctor', lambda c: _layer_profile_ctor(c, 'R18.16')),
-            ('R18.17', 'class_ops', lambda c: _layer_class_ops(c, 'R18.17'))],
+            ('R18.17', 'class_ops', lambda c: _layer_class_ops(c, 'R18.17')),
+            ('R18.18', 'kernel_args', lambda c: _layer_kernel_args(c, 'R18.18', (_ISI, _SPK, _SYN, _DIR)))],
 }
 for _pid, _items in _CHAINS.items():
     for _rid, _kind, _fn_ in _items:
